@@ -312,6 +312,12 @@ impl PwOps for Poly6 { m_scale!(); m_scale_assign!(); m_neg!(); m_translate!(); 
 impl PwOps for Poly7 { m_scale!(); m_scale_assign!(); m_neg!(); m_translate!(); m_deriv!(); m_integ!(); b_common!(); b_scale!(); b_scale_assign!(); b_neg!(); b_add!(); b_deriv!(); b_integ!(); }
 impl PwOps for Poly8 { m_scale!(); m_scale_assign!(); m_neg!(); m_translate!(); m_deriv!(); b_common!(); b_scale!(); b_scale_assign!(); b_neg!(); b_add!(); b_deriv!(); }
 impl PwOps for PolyN { m_translate!(); b_common!(); }
+impl PwOps for Piecewise<Poly0> {
+    m_translate!();
+    m_scale_assign!();
+    m_deriv!();
+    b_common!();
+}
 
 macro_rules! log_ops {
     ($($p:ident),*) => { $(
@@ -346,7 +352,7 @@ impl PwOps for IntOfLogPoly4 {
 }
 
 pub fn supports_scale(k: Kind) -> bool {
-    k != Kind::N
+    !matches!(k, Kind::N | Kind::W)
 }
 pub fn supports_scale_assign(k: Kind) -> bool {
     !matches!(k, Kind::N | Kind::Q)
@@ -355,7 +361,7 @@ pub fn supports_neg(k: Kind) -> bool {
     matches!(k, Kind::P(_) | Kind::I(_) | Kind::Q)
 }
 pub fn supports_derivative(k: Kind) -> bool {
-    matches!(k, Kind::P(_))
+    matches!(k, Kind::P(_) | Kind::W)
 }
 pub fn supports_integral(k: Kind) -> bool {
     matches!(k, Kind::P(0..=7) | Kind::L(_))
@@ -832,6 +838,11 @@ pub fn gen_coef(rng: &mut Rng) -> f64 {
 pub fn gen_coefs(rng: &mut Rng, kind: Kind, i: usize) -> Vec<f64> {
     match kind {
         Kind::P(0) => vec![(i + 1) as f64],
+        Kind::W => {
+            // inner function: two constant pieces around an inner breakpoint
+            let e0 = gen_coef(rng);
+            vec![e0, (i + 1) as f64 * 16.0, e0 + rng.range(0, 3) as f64, (i + 1) as f64 * 16.0 + 1.0 + gen_coef(rng).abs()]
+        }
         Kind::N => {
             let len = rng.usize_in(0, 6);
             let mut c: Vec<f64> = (0..len).map(|_| gen_coef(rng)).collect();
